@@ -150,7 +150,8 @@ class Canon:
     self.partial_defaults = partial_defaults
     self.memo = {}
     self.pins = []
-    self.sharing = sharing      # False: tree form (every reference expanded; acyclic only)
+    self.sharing = sharing      # False: tree form (every reference expanded)
+    self._stack = set()
 
   def tag(self, x):
     n = self.memo[id(x)] = len(self.memo)
@@ -160,6 +161,18 @@ class Canon:
   def go(self, x):
     if is_value(x):
       return leaf(x, self.lossless)
+    if self.sharing:
+      return self._go(x)
+    # tree form: a reference cycle (which a broken tree can produce) is a marker, not a recursion
+    if id(x) in self._stack:
+      return ('CYCLE',)
+    self._stack.add(id(x))
+    try:
+      return self._go(x)
+    finally:
+      self._stack.discard(id(x))
+
+  def _go(self, x):
     if self.sharing and id(x) in self.memo:
       return ('ref', self.memo[id(x)])
     tag = self.tag(x) if self.sharing else 0
